@@ -8,7 +8,10 @@ SEQ_POOL = [0, 1, 2, 55, 56, 127, 128, 255, 256, 65535, 65536, 2**24 - 1, 2**24,
 PORT_POOL = [0, 1, 127, 128, 255, 256, 30303, 65535]
 RESERVED = [b"id", b"ip", b"ip6", b"tcp", b"tcp6", b"udp", b"udp6", b"secp256k1", b"ed25519", b"client"]
 CUSTOM_KEYS = [b"", b"a", b"\x80", b"foo", b"zz", b"ip5", b"tcp7", b"udp", b"eth", b"eth2", b"attnets", b"\x00", b"\x7f",
-               b"k" * 55, b"k" * 56, b"ie", b"ic", b"secp256k0", b"toy", b"t"]
+               b"k" * 55, b"k" * 56, b"ie", b"ic", b"secp256k0", b"toy", b"t",
+               # names that merely begin with / extend a reserved name, or differ from one in case
+               b"udp4-name", b"tcp-alt", b"udp0", b"tcpx", b"ip4", b"ip66", b"idx", b"id2", b"i", b"secp256k1x", b"ed25519x", b"clientx",
+               b"ID", b"Ip", b"TCP", b"Udp", b"Client"]
 
 
 def rbytes(rng, n):
@@ -57,17 +60,32 @@ def rand_value(rng, maxlen=40, depth=0):
     return rlp_list(items)
 
 
+def neg_secret(s):
+    """the secp256k1 secret n - d: its public key has the same x coordinate and the other parity"""
+    d = int.from_bytes(s, "big")
+    return (SECP_N - d).to_bytes(32, "big") if 0 < d < SECP_N else None
+
+
 def secrets(rng, oracle, kt, n):
     out = []
-    fixed = [bytes.fromhex("b71c71a67e1177ad4e901695e1b4b9ee17ae16c6668d313eac2f96dbcda3f291"), b"\x01" * 32, (1).to_bytes(32, "big"),
-             (2).to_bytes(32, "big"), (SECP_N - 1).to_bytes(32, "big")]
-    i = 0
-    while len(out) < n:
-        s = fixed[i] if i < len(fixed) else rbytes(rng, 32)
-        i += 1
+    base = [bytes.fromhex("b71c71a67e1177ad4e901695e1b4b9ee17ae16c6668d313eac2f96dbcda3f291"), b"\x01" * 32, (1).to_bytes(32, "big"),
+            (2).to_bytes(32, "big")]
+    rng.shuffle(base)
+    base += [rbytes(rng, 32) for _ in range(n)]
+    # every secp256k1 secret may be followed by its negation: keys d and n-d share x and differ in the parity byte only
+    fixed = []
+    for j, sdat in enumerate(base):
         variant = None
         if kt == "comb":
-            variant = "secp" if len(out) % 2 == 0 else "ed"
+            variant = "secp" if j % 2 == 0 else "ed"
+        fixed.append((sdat, variant))
+        ns = neg_secret(sdat)
+        if ns and variant != "ed" and kt not in ("ed", "toy") and rng.random() < 0.6:
+            fixed.append((ns, variant))
+    i = 0
+    while len(out) < n:
+        s, variant = fixed[i] if i < len(fixed) else (rbytes(rng, 32), ("secp" if rng.random() < 0.5 else "ed") if kt == "comb" else None)
+        i += 1
         k = Key(oracle, kt, s, variant, sched=rng.choice(["0", "0,3,1", "40,0", "5"]))
         if k.pub is not None:
             out.append(k)
@@ -359,7 +377,7 @@ def rand_tval(rng):
     if c < 0.6:
         return tv("u64", rng.choice(PORT_POOL + [65536, 70000, 2**32, 2**64 - 1]))
     if c < 0.7:
-        return tv("s", hx(rng.choice([b"v4", b"v5", b"", b"hello", "é".encode(), b"a"])))
+        return tv("s", hx(rng.choice([b"v4", b"v5", b"V4", b"v4 ", b"v", b"", b"hello", "é".encode(), b"a"])))
     if c < 0.85:
         return tv("l", ",".join(hx(rbytes(rng, rng.randrange(0, 6))) for _ in range(rng.randrange(1, 4))) if rng.random() < 0.9 else "-")
     if c < 0.93:
@@ -367,9 +385,28 @@ def rand_tval(rng):
     return tv("ip6", rbytes(rng, 16).hex())
 
 
-RAW_POOL = [b"", b"\x80", b"\x05", b"\x00", b"\x81\x05", b"\x81\x80", b"\x84\x01\x02\x03\x04", b"\x84\x01\x02\x03\x04\xff", b"\x01\x02",
+CLIENT_LIST = rlp_list(rlp_str(b"Nimbus") + rlp_str(b"v1.2.3"))
+RAW_POOL = [b"\x82V4", b"\x83v4\x00", rlp_str(CLIENT_LIST), CLIENT_LIST, b"\x82ab", b"\xc2ab", b"", b"\x80", b"\x05", b"\x00", b"\x81\x05", b"\x81\x80", b"\x84\x01\x02\x03\x04", b"\x84\x01\x02\x03\x04\xff", b"\x01\x02",
             b"\xc0", b"\xc1\x80", b"\xc2\x01", b"\xc3\x01\x02", b"\x85ab", b"\xb8\x03abc", b"\x82\x00\x50", b"\x82\x76\x34", b"\x82\x76\x35",
             b"\x83\x01\x00\x00", b"\x90" + b"\x11" * 16, b"\x82\x01\x00\x82\x01\x00", b"\xf8\x38" + b"\x01" * 56, b"\xb8\x38" + b"a" * 56]
+
+
+def near_valid_tval(rng, key, pubs):
+    """typed values that are valid, or one step away from valid, for a reserved key"""
+    if key == b"id":
+        return rng.choice([tv("s", hx(b"v4")), tv("s", hx(b"V4")), tv("s", hx(b"v5")), tv("s", hx(b"v4 ")), tv("b", hx(b"v4")), tv("b", hx(b"V4")), tv("s", "-")])
+    if key in (b"tcp", b"udp", b"tcp6", b"udp6"):
+        return rng.choice([tv("u16", rng.choice(PORT_POOL)), tv("u64", rng.choice([80, 65535, 65536, 2**32])), tv("b", hx(b"\x00\x50")), tv("b", hx(b"\x76\x5f")), tv("b", "-"), tv("s", hx(b"80"))])
+    if key == b"ip":
+        return rng.choice([tv("ip4", raddr(rng, 4).hex()), tv("b", raddr(rng, 4).hex()), tv("b", rbytes(rng, 5).hex()), tv("b", rbytes(rng, 3).hex()), tv("ip6", raddr(rng, 16).hex())])
+    if key == b"ip6":
+        return rng.choice([tv("ip6", raddr(rng, 16).hex()), tv("b", raddr(rng, 16).hex()), tv("b", rbytes(rng, 15).hex()), tv("ip4", raddr(rng, 4).hex())])
+    if key in (b"secp256k1", b"ed25519", b"toy"):
+        return tv("b", hx(rng.choice(pubs + [b"xx", rbytes(rng, 33), rbytes(rng, 32)])))
+    if key == b"client":
+        return rng.choice([tv("l", "%s,%s" % (hx(b"Nimbus"), hx(b"v1"))), tv("l", "%s,%s,%s" % (hx(b"a"), hx(b"b"), hx(b"c"))), tv("l", hx(b"solo")),
+                           tv("l", "%s,%s,%s,%s" % (hx(b"a"), hx(b"b"), hx(b"c"), hx(b"d"))), tv("b", hx(CLIENT_LIST)), tv("s", hx(b"Nimbus"))])
+    return rand_tval(rng)
 
 
 def rand_op(rng, keyslots, own_entry, pubs):
@@ -387,7 +424,8 @@ def rand_op(rng, keyslots, own_entry, pubs):
     if c < 0.06:
         return "set_seq %s %s %d" % (slot, fail, rng.choice(SEQ_POOL) if rng.random() < 0.7 else rng.randrange(2**64))
     if c < 0.22:
-        return "insert %s %s %s %s" % (slot, fail, hx(k_any()), rand_tval(rng))
+        k = k_any()
+        return "insert %s %s %s %s" % (slot, fail, hx(k), near_valid_tval(rng, k, pubs) if rng.random() < 0.7 else rand_tval(rng))
     if c < 0.36:
         v = rng.choice(RAW_POOL) if rng.random() < 0.7 else rand_value(rng, 30)
         return "insert_raw %s %s %s %s" % (slot, fail, hx(k_any()), hx(v))
@@ -412,7 +450,9 @@ def rand_op(rng, keyslots, own_entry, pubs):
         for _ in range(rng.randrange(0, 3)):
             k = k_any()
             if k == b"id":
-                v = rng.choice([b"v4", b"v4", b"v5"])
+                v = rng.choice([b"v4", b"v4", b"v5", b"V4"])
+            elif k == b"client":
+                v = rng.choice([CLIENT_LIST, b"Nimbus"])
             elif k in (b"tcp", b"udp", b"tcp6", b"udp6"):
                 v = rng.choice([b"\x50", b"\x00\x50", b"", b"\x01\x00\x00", b"\x76\x5f"])
             elif k == b"ip":
@@ -444,7 +484,7 @@ def rand_bcalls(rng, pubs):
             out.append("client/%s/%s/%s" % (hx(b"Nethermind"), hx(b"1.9.53"), rng.choice(["none", hx(b"7fcb567")])))
         elif c < 0.8:
             k = rng.choice(RESERVED + CUSTOM_KEYS)
-            out.append("val/%s/%s" % (hx(k), rand_tval(rng)))
+            out.append("val/%s/%s" % (hx(k), near_valid_tval(rng, k, pubs) if rng.random() < 0.6 else rand_tval(rng)))
         else:
             k = rng.choice(RESERVED + CUSTOM_KEYS)
             v = rng.choice(RAW_POOL) if rng.random() < 0.6 else rand_value(rng, 30)
@@ -468,6 +508,7 @@ def history(rng, oracle, kt, steps, start=None):
         slots.append(("c", other[0]))
     lines = ["key %s %s" % (s, k.spec) for s, k in slots]
     pubs = [k.pub for _, k in slots] + [bytes.fromhex("03ca634cae0d49acb401d8a4c6b6fe8c55b70d115bf400769cc1400f3258cd3138")]
+    pubs += [k.pub_unc for _, k in slots if getattr(k, "pub_unc", None)]
     c = rng.random()
     if start is not None:
         lines.append(start)
